@@ -74,8 +74,10 @@ func VerifC13Trim() {
 		fsys.PutFile(f.path, []byte("x"), f.mtime)
 		files = append(files, f)
 	}
-	// foreign files at the top level
+	// foreign files at the top level, and a foreign directory holding old files with entry-like names
 	fsys.PutFile(vDir+"/README", []byte("readme"), vNow-100*vDay)
+	fsys.PutFile(vDir+"/fuzz/corpus-d", []byte("seed"), vNow-100*vDay)
+	fsys.PutFile(vDir+"/fuzz/seed-a", []byte("seed"), vNow-100*vDay)
 	// last-trim record
 	trimPath := vDir + "/trim.txt"
 	trimKind := rt.IntRange(0, 3)
@@ -168,6 +170,7 @@ func VerifC13Trim() {
 		}
 	}
 	rt.Assert(fsys.Exists(vDir+"/README"), "foreign-file-kept")
+	rt.Assert(fsys.Exists(vDir+"/fuzz/corpus-d") && fsys.Exists(vDir+"/fuzz/seed-a"), "foreign-directory-untouched")
 	if old {
 		rt.Reach("due")
 		n := fsys.File(trimPath)
